@@ -14,6 +14,7 @@ import Driver.Encode
 import Driver.Sim
 import Driver.Modes
 import Driver.Text
+import Driver.Pipe
 /-
 Line-protocol driver: one case per line, first token selects the engine, one reply line per case.
 Stateless across lines (a line is a complete case = a replay).  Core-only imports so that it links.
@@ -45,6 +46,8 @@ def dispatch (env : Env) (eng rest : String) : String :=
   | "sim" => Sim.run env rest
   | "modes" => Modes.run env rest
   | "text" => Text.run env rest
+  | "pipe" => Pipe.run env rest
+  | "pipetrace" => Pipe.runTrace env rest
   | _ => "bad-engine"
 
 def handle (env : Env) (line : String) : String :=
